@@ -114,7 +114,8 @@ def run(ck, ix, tier):
                  "the search continues after the target was discovered (a later, longer path can be returned)")
         for s in succ:
             r = cfg.nodes[s].ast
-            v = r.value
+            from .. import shape as _shp
+            v = _shp.unalias(r.value, fi.node)      # `extended = path + [node]` hoisted into a temporary
             ok2 = isinstance(v, ast.BinOp) and isinstance(v.op, ast.Add) and norm(v.left) == "path" and norm(n.ast.left) in norm(v.right)
             ck.check(ok2, "G-PROV", "find_shortest_path|returned-path-extends-current-path", fi.loc(r), "returns path + [target]", f"`{norm(r)}` is not the current path extended by the discovered node")
     triv = [n for n in tests if norm(n.ast.left) == "start"]
@@ -127,6 +128,8 @@ def run(ck, ix, tier):
             node, pth = a.elts
             if norm(node) == "start":
                 continue
+            from .. import shape as _shp
+            pth = _shp.unalias(pth, fi.node)
             ok = isinstance(pth, ast.BinOp) and norm(pth.left) == "path" and norm(node) in norm(pth.right)
             ck.check(ok, "G-PROV", "find_shortest_path|frontier-entry-carries-extended-path", fi.loc(c), "frontier entries carry path + [node]", f"`{norm(c)}` does not carry the path extended by the node")
     ck.check("visited" in norm(fi.node) and " - visited" in norm(fi.node), "G-TYPESTATE", "find_shortest_path|visited-nodes-skipped", fi.loc(),
@@ -161,8 +164,10 @@ def run(ck, ix, tier):
             ck.check(args[:3] == [a, b, "self"] and same_var and "_active_ctx" in norm(c.func), "G-PROV", "ctx_convert|transform-chained", fi.loc(c),
                      "each step transforms the running value from a to b through the active chain",
                      f"`{norm(tgt) if tgt is not None else norm(c)}` does not chain the running value through transform({a}, {b}, self, value)")
-    gate = [n.id for n in cfg.nodes if n.kind == "test" and norm(n.ast) == "self._active_ctx"]
-    ck.check(bool(gate), "G-DOM", "ctx_convert|rules-only-with-active-contexts", fi.loc(), "rules are only consulted while contexts are active", "the active-context test is gone")
+    from .. import shape as _shp
+    active = _shp.guard_edges(cfg, lambda a_: norm(a_) == "self._active_ctx", want=True)
+    spn = nodes_with(cfg, lambda x: isinstance(x, ast.Call) and call_name(x) == "find_shortest_path")
+    ck.check(bool(active) and _shp.reachable_without(cfg, live(cfg, spn), active) is None, "G-DOM", "ctx_convert|rules-only-with-active-contexts", fi.loc(), "rules are only consulted while contexts are active", "the rule graph is searched although no context is active (the active-context test is gone)")
     # delegation (shared with C01): every normal exit through super()._convert
     sup = nodes_with(cfg, lambda x: is_super_call(x, "_convert"))
     p = cfg.all_paths_pass(cfg.entry, [cfg.exit], sup)
@@ -173,7 +178,9 @@ def run(ck, ix, tier):
                  "delegates (value, src, dst)", f"`{norm(c)}` does not pass the (transformed) value, its units and the destination")
     unpack = [a for a in walk_local(fi.node) if isinstance(a, ast.Assign) and isinstance(a.targets[0], ast.Tuple) and [norm(e) for e in a.targets[0].elts] == ["value", "src"]]
     for a in unpack:
-        ck.check(norm(a.value) == "(src._magnitude, src._units)", "G-PROV", "ctx_convert|unpacks-magnitude-and-units", fi.loc(a), "value, src = magnitude, units of the transformed quantity",
+        e_ = a.value.elts if isinstance(a.value, ast.Tuple) and len(a.value.elts) == 2 else [None, None]
+        oku = all(isinstance(x, ast.Attribute) for x in e_) and e_[0].attr == "_magnitude" and e_[1].attr == "_units" and norm(e_[0].value) == norm(e_[1].value)
+        ck.check(oku, "G-PROV", "ctx_convert|unpacks-magnitude-and-units", fi.loc(a), "value, src = magnitude, units of the transformed quantity",
                  f"`{norm(a)}` does not unpack (magnitude, units) in that order")
 
     # ------------------------------------------------------------ chain lookup and bookkeeping
@@ -183,7 +190,8 @@ def run(ck, ix, tier):
     fi = ix.func(CO, "ContextChain.transform")
     ck.analysed(fi)
     r = [x for x in walk_local(fi.node) if isinstance(x, ast.Return)]
-    ok = len(r) == 1 and norm(r[0].value) == "self[src, dst].transform(src, dst, registry, value)"
+    from .. import shape as _sh11
+    ok = len(r) == 1 and _sh11.rnorm(r[0].value, fi.node) in ("self[src, dst].transform(src, dst, registry, value)", "self[(src, dst)].transform(src, dst, registry, value)")
     ck.check(ok, "G-PROV", "ContextChain.transform|first-map-with-rule-wins", fi.loc(), "rule looked up through the ChainMap (newest context first) and applied with (src, dst, registry, value)",
              f"`{norm(r[0]) if r else '?'}` is not the ChainMap lookup of (src, dst) applied to the value")
     fi = ix.func(CO, "Context.transform")
@@ -213,6 +221,9 @@ def run(ck, ix, tier):
     ck.floor("G-PROV", len(dcalls), 1, "merge of enclosing defaults into kwargs")
     for a in dcalls:
         v = a.value
+        from .. import shape as _shd
+        if isinstance(v, ast.Call) and v.args:
+            v = ast.Call(func=v.func, args=[_shd.unalias(v.args[0], fi.node)] + list(v.args[1:]), keywords=v.keywords)
         ok = (isinstance(v, ast.Call) and call_name(v) == "dict" and len(v.args) == 1 and norm(v.args[0]) == "self._active_ctx.defaults"
               and any(k.arg is None and norm(k.value) == "kwargs" for k in v.keywords)) or \
              (isinstance(v, ast.Dict) and [norm(x) for x in v.values] == ["self._active_ctx.defaults", "kwargs"] and all(k is None for k in v.keys)) or \
@@ -220,7 +231,9 @@ def run(ck, ix, tier):
         ck.check(ok, "G-PROV", "enable_contexts|call-kwargs-override-enclosing-defaults", fi.loc(a), "call keyword arguments override the enclosing chain's defaults",
                  f"`{norm(a)}` does not let the call's keyword arguments override the enclosing defaults")
     # endpoint normalisation on first activation (the `checked` flag)
-    norm_tests = [t for t in walk_local(fi.node) if isinstance(t, ast.If) and any(isinstance(c, ast.Call) and call_name(c) == "remove_transformation" for c in ast.walk(t))]
+    from .. import shape as _she
+    fnx = _she.inline_helpers(ix, fi)      # an extracted private helper (method or module function) is looked through
+    norm_tests = [t for t in ast.walk(fnx) if isinstance(t, ast.If) and any(isinstance(st, ast.Expr) and isinstance(st.value, ast.Call) and call_name(st.value) == "remove_transformation" for st in t.body)]
     ck.floor("G-PROV", len(norm_tests), 1, "endpoint normalisation test in enable_contexts")
     for t in norm_tests:
         tt = t.test
@@ -232,7 +245,11 @@ def run(ck, ix, tier):
                  f"`{norm(tt)}`: a rule whose source *or* target is a derived dimension must be re-keyed to base dimensions (otherwise the path search never finds it)")
         rm = [c for c in ast.walk(t) if isinstance(c, ast.Call) and call_name(c) == "remove_transformation"]
         ad = [c for c in ast.walk(t) if isinstance(c, ast.Call) and call_name(c) == "add_transformation"]
-        ok2 = len(rm) == 1 and len(ad) == 1 and [norm(a) for a in rm[0].args] == ["src", "dst"] and [norm(a) for a in ad[0].args] == ["src_", "dst_", "func"]
+        ok2 = len(rm) == 1 and len(ad) == 1 and len(rm[0].args) == 2 and len(ad[0].args) == 3
+        if ok2:
+            olds = [norm(a) for a in rm[0].args]
+            news = [_she.unalias(a, fnx) for a in ad[0].args[:2]]
+            ok2 = all(isinstance(nw, ast.Call) and "get_dimensionality" in norm(nw.func).lower().replace("_get_", "get_") and [norm(x) for x in nw.args] == [o] for nw, o in zip(news, olds)) and isinstance(ad[0].args[2], ast.Name)
         ck.check(ok2, "G-PROV", "enable_contexts|rule-rekeyed-to-base-dimensions", fi.loc(t), "old key removed, same function added under the base-dimension key",
                  "the rule is not moved from (src, dst) to (base src, base dst) with the same function")
     fc = [c for c in walk_local(fi.node) if isinstance(c, ast.Call) and call_name(c) == "from_context"]
